@@ -92,7 +92,7 @@ def handle (j : J) : J :=
   | "visit" =>
     let t := nodeOfJson (j.getD "tree")
     let vs := (j.arrD "visitors").map visitorOfJson
-    let v : Visitor Log := if j.boolD "chain" then chained vs else vs.headD (scripted 0 false [])
+    let v : Visitor Log := if j.boolD "chain" then chained vs Generated.VisitTable.chainPersonalSkip else vs.headD (scripted 0 false [])
     let fuel := j.natD "fuel" 100000
     let r := match j.get? "method" with
       | some (.str m) => visitM Generated.VisitTable.table v fuel m t []
